@@ -39,7 +39,9 @@ def check_hist(ctx, depth, first):
     for b in ops.init:
         ctx.assume(z3.ULE(b, NOPS - 1))
     ctx.assume(ops.init[0] == first)
-    paths = ctx.run("k_life_hist", [b0, b1, ops, BV(depth, 32)])
+    cnt = ctx.sym("cnt", 32)           # number of elements every allocation of the history asks for (0 included)
+    ctx.assume(z3.ULE(cnt, 2))
+    paths = ctx.run("k_life_hist", [b0, b1, ops, BV(depth, 32), cnt])
     for q in paths:
         r, m = ctx.eng.check_sat(q.pc)
         if r != "sat":
@@ -106,7 +108,10 @@ def check_hist(ctx, depth, first):
             elif op == 4:
                 called = any(e[0] == 0x203 for e in side)
                 if st[0] == "C":
-                    if not called:
+                    if mval(m, cnt) == 0:
+                        if not done and q.status == "abort" and "allocate 0" in (q.info or ""):
+                            break    # an empty request on a created sandbox may be refused
+                    elif not called:
                         bad = "step %d: malloc on a created sandbox did not reach the backend" % k
                     if not done and q.status == "abort" and "Malloc returned" in (q.info or ""):
                         break    # allocator result rejected: allowed
@@ -182,7 +187,7 @@ def check_hist(ctx, depth, first):
         if dontcare:
             bad = None
         if bad:
-            ctx.violations.append({"check": ctx.name, "kernel": "k_life_hist", "violated": bad, "inputs": {"ops": seq, "create_results": creates},
+            ctx.violations.append({"check": ctx.name, "kernel": "k_life_hist", "violated": bad, "inputs": {"ops": seq, "create_results": creates, "malloc_count": mval(m, cnt)},
                                    "outcome": q.status, "msg": q.info, "replayed": None})
         else:
             ctx.discharged += 1
